@@ -525,3 +525,97 @@ Theorem inlines_unreachable_sites_are :
     "autolink.rs:autolink_delim:data[link_end - 1]" ]%string.
 Proof. exact (eq_refl _). Qed.
 Print Assumptions inlines_unreachable_sites_are.
+
+(* ==================================================================================================================
+   C01, inline phase, third wave (Proofs/InlinesTotal3*.v): the stack invariant (S).
+   ---- 1h. invariant (S) and what it excludes ----
+   (S) (InlinesTotal3Step.SInv): the delimiter stack and the bracket stack, merged by the input position their
+   entries were pushed at (bottom first), EMBED order-preserving (InlinesTotal3Emb.emb) into the children of the node
+   under construction (first child first): every entry names, by id, a Text sibling -
+     a delimiter that is not a quote: k copies of d_char, 1 <= k <= d_len (k = what insert_emph left), END COLUMN >= k;
+     a quote delimiter: one of the four curly quotes;     a bracket: the Text `[` / `![`;
+   sibling ids are unique, entry positions are <= pos.  TESTED before proving: evaluated in every state of the main
+   loop and in every iteration of the closer loop of the final process_emphasis on 6134 delimiter-heavy contents x 4
+   option sets (vm_compute; nested / overlapping emphasis, links in emphasis, remove_delimiters after a link match,
+   strikethrough / underline / spoiler / superscript runs, smart quotes, footnote references, wikilinks, autolinks).
+   PROVED: (S) is kept by every arm of parse_inline (frame + append; handle_delim push: the new Text is numdelims
+   copies and ends at column >= numdelims because column_offset >= -pos; push_bracket; close_bracket_match: the stack
+   is cut at the bracket, the part above embeds into the new link's children - where process_emphasis runs -, the
+   part below into the siblings in front; the footnote-reference path; wikilinks; the autolink rewind under the
+   hypothesis that the Text siblings it walks over end in the scheme letters), and under (S)
+   process_emphasis / insert_emph NEVER panic (the zipper of pe_loop stays embedded: insert_emph removes the
+   delimiters between, shrinks k to k - use_delims, lowers the opener's end column by use_delims).
+   CONSEQUENCE (inlines_total_autolink_off): with the autolink extension off, the inline phase of a block is TOTAL
+   under the four premises of 1g - all 76 Panic sites unreachable.  With the extension on, totality is reduced
+   (inlines_total_reduces_to_T) to the one remaining invariant (T): when url_match answers at `:`, the trailing Text
+   siblings spell its rewind (InlinesTotal3Step.spelled) - section 1i. *)
+From V Require Proofs.InlinesTotal3Emb Proofs.InlinesTotal3Pe Proofs.InlinesTotal3Step Proofs.InlinesTotal3Walk
+     Proofs.InlinesTotal3Main.
+
+Theorem process_emphasis_total_under_S :
+  forall o inp s n0 items ds bottom site,
+    (- coloff s <= Z.of_nat (pos s))%Z ->
+    Forall (fun d => InlinesTotal2Pe.dchar_ok o (d_char d) = true) ds ->
+    InlinesTotal3Emb.emb (map InlinesTotal3Emb.ED ds) items ->
+    InlinesTotal3Emb.uniq items -> InlinesTotal3Emb.fresh items n0 ->
+    process_emphasis o inp s n0 items ds bottom <> Panic site.
+Proof. exact InlinesTotal3Main.process_emphasis_nopanic. Qed.
+Print Assumptions process_emphasis_total_under_S.
+
+Theorem inlines_total_autolink_off :
+  forall memo o u inp lo sl refmap maxref rs0,
+    io_autolink o = false ->
+    Strings.rtrim_slice inp = inp -> first_line_not_blank inp = true ->
+    line_endings inp < List.length lo -> (rs0 <= maxref)%N ->
+    exists ch rs, parse_inlines memo o u inp lo sl refmap maxref rs0 = Ok (ch, rs).
+Proof. exact InlinesTotal3Main.inlines_total_noautolink. Qed.
+Print Assumptions inlines_total_autolink_off.
+
+(* every state invariant J that gives (T) at `:` and is kept by the steps of the main loop gives totality *)
+Theorem inlines_total_reduces_to_T :
+  forall memo o u inp lo sl refmap maxref,
+    Strings.rtrim_slice inp = inp -> first_line_not_blank inp = true ->
+    forall J : st -> Prop,
+    (forall s, InlinesTotal2Walk.TInv o inp lo sl maxref s -> InlinesTotal3Step.SInv s -> J s ->
+               InlinesTotal3Walk.TH o u inp s) ->
+    (forall s s', InlinesTotal2Walk.TInv o inp lo sl maxref s -> InlinesTotal3Step.SInv s -> J s ->
+                  parse_inline memo o u inp lo sl refmap maxref s = Ok (Some s') -> J s') ->
+    forall rs0, line_endings inp < List.length lo -> (rs0 <= maxref)%N -> J (init_st sl rs0) ->
+    exists ch rs, parse_inlines memo o u inp lo sl refmap maxref rs0 = Ok (ch, rs).
+Proof. exact InlinesTotal3Walk.inlines_total_section. Qed.
+Print Assumptions inlines_total_reduces_to_T.
+
+(* non-vacuity of 1h: a content with overlapping emphasis, a link text that closes an emphasis opened outside and a
+   strikethrough run meets the premises *)
+Theorem inlines_total_autolink_off_example :
+  Strings.rtrim_slice InlinesTotal3Main.ex3_input = InlinesTotal3Main.ex3_input
+  /\ first_line_not_blank InlinesTotal3Main.ex3_input = true /\ line_endings InlinesTotal3Main.ex3_input < 1.
+Proof. exact InlinesTotal3Main.ex3_premises. Qed.
+Print Assumptions inlines_total_autolink_off_example.
+
+(* ---- 1i. what is left: invariant (T) ----
+   inlines_T_statement: in every state the main loop reaches (InlinesTotal3Main.reach) on NUL-free, right-trimmed, valid
+   UTF-8 content under the premises of 1g, when url_match answers at pos the trailing Text siblings spell its rewind
+   (InlinesTotal3Walk.TH: each Text the rewind walks over ends in ASCII letters, the one it shortens has an end column
+   >= what is taken away).  NOT PROVED (tested by evaluation: InlinesTotal3Test.corpus_all_ok and a random corpus).
+   It needs, per arm of parse_inline, that the last byte consumed is not a letter or the appended node is the Text
+   of the consumed bytes: for the raw-HTML forms of handle_pointy_brace that take `scanner match + k` bytes (CDATA,
+   declaration, processing instruction) this is where valid UTF-8 enters (witness 1e).
+   PROVED: with it the corrected full statement follows (inlines_total_from_T); without it: totality with the
+   autolink extension off (1h), and for every option set the 60 sites of 1g. *)
+Definition inlines_T_statement : Prop := InlinesTotal3Main.inlines_T_statement.
+
+Theorem inlines_total_from_T : inlines_T_statement -> inlines_total_statement.
+Proof. exact InlinesTotal3Main.inlines_total_from_T. Qed.
+Print Assumptions inlines_total_from_T.
+
+(* (S) and (T) hold in every state of the main loop, and the zipper of pe_loop stays embedded in every iteration of the
+   final process_emphasis, on the 134 contents of InlinesTotal3Test.corpus under four option sets (evaluation) *)
+From V Require Proofs.InlinesTotal3Test.
+Theorem inlines_S_T_hold_on_corpus :
+  InlinesTotal3Test.run_all (InlinesTotal3Test.io_all true) = []
+  /\ InlinesTotal3Test.run_all (InlinesTotal3Test.io_all false) = []
+  /\ InlinesTotal3Test.run_all InlinesTotal3Test.io_relaxed = []
+  /\ InlinesTotal3Test.run_all io_default = [].
+Proof. exact InlinesTotal3Test.corpus_all_ok. Qed.
+Print Assumptions inlines_S_T_hold_on_corpus.
